@@ -1,26 +1,26 @@
 #!/bin/bash
 # confirm_seed.sh <PROP> <A|B> : independently confirm a seeded change in a fresh scratch worktree, then store it under /verif/seeded
 set -u
-P=$1; L=$2; SRC=/tmp/wt_out/$P; W=/tmp/wt/confirm_${P}_$L; OUT=/verif/seeded/${P}-$L
+P=$1; L=$2; SRC=${3:-/tmp/wt_out/$P}; W=/tmp/wt/confirm_${P}_$L; OUT=/verif/seeded/${4:-${P}-$L}
 rm -rf $W; git -C /repo worktree prune; git -C /repo worktree add --detach $W HEAD -q || exit 9
 cd $W
-/venv/bin/python $SRC/demo_$L.py >/tmp/wt_out/$P/confirm_clean_$L.log 2>&1; clean_rc=$?
+/venv/bin/python $SRC/demo_$L.py >$SRC/confirm_clean_$L.log 2>&1; clean_rc=$?
 git apply $SRC/patch_$L.diff || { echo "patch does not apply"; git -C /repo worktree remove --force $W; exit 8; }
-/venv/bin/python $SRC/demo_$L.py >/tmp/wt_out/$P/confirm_mut_$L.log 2>&1; mut_rc=$?
-/venv/bin/python -m pytest -q -p no:cacheprovider --timeout=900 --continue-on-collection-errors --junitxml=/tmp/wt_out/$P/confirm_junit_$L.xml >/dev/null 2>&1
-base=$(python3 /verif/tools/baseline_check.py --junit /tmp/wt_out/$P/confirm_junit_$L.xml | head -1)
+/venv/bin/python $SRC/demo_$L.py >$SRC/confirm_mut_$L.log 2>&1; mut_rc=$?
+/venv/bin/python -m pytest -q -p no:cacheprovider --timeout=900 --continue-on-collection-errors --junitxml=$SRC/confirm_junit_$L.xml >/dev/null 2>&1
+base=$(python3 /verif/tools/baseline_check.py --junit $SRC/confirm_junit_$L.xml | head -1)
 cd /; git -C /repo worktree remove --force $W
 echo "$P-$L clean_rc=$clean_rc mutant_rc=$mut_rc $base"
 if [ $clean_rc -eq 0 ] && [ $mut_rc -ne 0 ] && echo "$base" | grep -q "42/42"; then
   mkdir -p $OUT; cp $SRC/patch_$L.diff $OUT/patch.diff; cp $SRC/demo_$L.py $OUT/demo.py
-  python3 - "$P" "$L" "$base" "$mut_rc" <<'PY'
+  python3 - "$P" "$L" "$base" "$mut_rc" "$SRC" "$OUT" <<'PY'
 import json,sys,re
-P,L,base,rc=sys.argv[1:5]
-notes=open(f"/tmp/wt_out/{P}/notes.md").read()
+P,L,base,rc,SRC,OUT=sys.argv[1:7]
+notes=open(f"{SRC}/notes.md").read()
 json.dump({"property":P,"variant":L,"breaks":P,"needs_to_manifest":"see notes (excerpt below)","notes_excerpt":notes[:6000],
  "confirmed":{"worktree":"fresh git worktree of /repo HEAD under /tmp/wt","demo_on_clean_tree_rc":0,"demo_with_patch_rc":int(rc),
  "tests":base,"commands":["git apply patch.diff","/venv/bin/python demo.py","/venv/bin/python -m pytest ... && tools/baseline_check.py"]}},
- open(f"/verif/seeded/{P}-{L}/meta.json","w"),indent=1)
+ open(f"{OUT}/meta.json","w"),indent=1)
 PY
   echo "stored $OUT"
 else echo "NOT CONFIRMED $P-$L"; fi
